@@ -175,7 +175,7 @@ type Explorer struct {
 
 // runStable runs prefix; if the replayed part diverges from the labels recorded
 // for that prefix (environment nondeterminism such as Go map iteration order),
-// it is re-drawn up to 40 times.
+// it is re-drawn up to 1500 times.
 func (e *Explorer) runStable(prefix []int, want []string) *Execution {
 	for try := 0; ; try++ {
 		x := e.Run(prefix)
@@ -196,9 +196,9 @@ func (e *Explorer) runStable(prefix []int, want []string) *Execution {
 			return x
 		}
 		e.Stats.Redraws++
-		if try >= 40 {
+		if try >= 1500 {
 			e.Stats.Divergences++
-			x.Diverged = "replay of a recorded prefix diverged 40 times: " + x.Diverged
+			x.Diverged = "replay of a recorded prefix diverged 1500 times: " + x.Diverged
 			return x
 		}
 	}
